@@ -158,6 +158,18 @@ func (s *socket) Construct(id string, server BaseServer, transport transports.Tr
 
 // Called upon transport considered open.
 func (s *socket) onOpen() {
+	// the heartbeat timers exist before the session counts as open: the reader
+	// goroutine of a websocket / webtransport transport is running already, and a
+	// client need not wait for the open packet before it sends a heartbeat packet,
+	// which would find no timer to refresh
+	if s.protocol == 3 {
+		// in protocol v3, the client sends a ping, and the server answers with a pong
+		s.resetPingTimeout()
+	} else {
+		// in protocol v4, the server sends a ping, and the client answers with a pong
+		s.schedulePing()
+	}
+
 	s.SetReadyState("open")
 
 	// sends an `open` packet
@@ -189,14 +201,6 @@ func (s *socket) onOpen() {
 	}
 
 	s.Emit("open")
-
-	if s.protocol == 3 {
-		// in protocol v3, the client sends a ping, and the server answers with a pong
-		s.resetPingTimeout()
-	} else {
-		// in protocol v4, the server sends a ping, and the client answers with a pong
-		s.schedulePing()
-	}
 }
 
 // Called upon transport packet.
